@@ -13,6 +13,22 @@ struct V {
     /// private functions whose whole body is `<hasher param>.hash_one(<string param>)`:
     /// (name, index of the string parameter).  A call of one is a `hash_one` call.
     helpers: Vec<(String, usize)>,
+    /// the hash values of the current function: `u64` parameters and locals bound to a whole-string hash
+    hash_vars: Vec<String>,
+}
+
+/// the `u64` parameters of a function (a helper that is handed the hash by its caller)
+fn u64_params(sig: &syn::Signature) -> Vec<String> {
+    sig.inputs
+        .iter()
+        .filter_map(|a| match a {
+            syn::FnArg::Typed(pt) if toks(&*pt.ty) == "u64" => match &*pt.pat {
+                syn::Pat::Ident(pi) => Some(pi.ident.to_string()),
+                _ => None,
+            },
+            _ => None,
+        })
+        .collect()
 }
 
 /// `fn name(.., h: .., .., s: ..) -> u64 { h.hash_one(s) }`  ->  (name, position of `s`)
@@ -153,22 +169,39 @@ impl V {
 impl<'ast> Visit<'ast> for V {
     fn visit_impl_item_fn(&mut self, f: &'ast syn::ImplItemFn) {
         let old = std::mem::replace(&mut self.func, f.sig.ident.to_string());
+        let old_vars = std::mem::replace(&mut self.hash_vars, u64_params(&f.sig));
         syn::visit::visit_impl_item_fn(self, f);
         self.func = old;
+        self.hash_vars = old_vars;
     }
     fn visit_item_fn(&mut self, f: &'ast syn::ItemFn) {
         let old = std::mem::replace(&mut self.func, f.sig.ident.to_string());
+        let old_vars = std::mem::replace(&mut self.hash_vars, u64_params(&f.sig));
         syn::visit::visit_item_fn(self, f);
         self.func = old;
+        self.hash_vars = old_vars;
     }
     fn visit_local(&mut self, l: &'ast syn::Local) {
-        // `let hash = <expr>;`
-        if let syn::Pat::Ident(pi) = &l.pat {
-            if pi.ident == "hash" {
-                if let Some(init) = &l.init {
-                    let shape = if whole_string_hash(&init.expr, &self.helpers).is_some() { ".hashOneWhole" } else { ".other" };
+        // `let hash = <expr>;` - whatever the local is called when it is bound to the hash of a whole string
+        let pat = match &l.pat {
+            syn::Pat::Type(pt) => &*pt.pat,
+            p => p,
+        };
+        if let syn::Pat::Ident(pi) = pat {
+            if let Some(init) = &l.init {
+                let whole = whole_string_hash(&init.expr, &self.helpers).is_some();
+                if pi.ident == "hash" || whole {
+                    let shape = if whole { ".hashOneWhole" } else { ".other" };
                     let t = toks(&*init.expr);
                     self.push(".binding", shape, &t);
+                    if whole {
+                        self.hash_vars.push(pi.ident.to_string());
+                    } else {
+                        self.hash_vars.retain(|v| *v != pi.ident.to_string());
+                    }
+                } else {
+                    // shadowed by something that is not a hash
+                    self.hash_vars.retain(|v| *v != pi.ident.to_string());
                 }
             }
         }
@@ -219,7 +252,7 @@ impl<'ast> Visit<'ast> for V {
                 self.push(".probeEq", if ok { ".hashOneWhole" } else { ".other" }, &toks(c));
             }
             // the hash handed to the raw-entry API must be the binding `hash`
-            let ok = m.args.first().map(|a| toks(a) == "hash").unwrap_or(false);
+            let ok = m.args.first().map(|a| is_plain_ident(a) && self.hash_vars.contains(&toks(a))).unwrap_or(false);
             let t = m.args.first().map(|a| toks(a)).unwrap_or_default();
             self.push(".use", if ok { ".hashOneWhole" } else { ".other" }, &t);
         } else if (name == "hash" && m.args.len() == 1) || (name == "finish" && self.func != "fmt") || name == "write_usize" || name == "write_u64" {
@@ -241,7 +274,7 @@ pub fn is_hash_helper(name: &str) -> bool {
 }
 
 pub fn emit(src: &Path, out: &mut String) {
-    let mut v = V { file: String::new(), func: String::new(), sites: Vec::new(), helpers: Vec::new() };
+    let mut v = V { file: String::new(), func: String::new(), sites: Vec::new(), helpers: Vec::new(), hash_vars: Vec::new() };
     // first pass: private helpers that are nothing but `hasher.hash_one(string)`
     for f in ["rodeo.rs", "reader.rs", "threaded_rodeo.rs", "util.rs"] {
         let path = src.join(f);
